@@ -163,9 +163,18 @@ def harness(cfg, B):
     elif h == 'restart':
         M = cfg['M']
         s2, m2, me2 = P_.make(integ)
-        r2 = s2.solve(P_.field(m2, me2), B.const(1), stop={'maxit': N})
-        r3 = s2.restart(r2[-1], B.const(1), stop={'maxit': M})
+        # the same monitor dictionary is handed to solve and to restart: its record continues across the restart
+        k = 2
+        mon = {'avg': {'type': 'data_average', 'frequency': k, 'data': 'q'}, 'res': {'type': 'residual', 'frequency': k}}
+        r2 = s2.solve(P_.field(m2, me2), B.const(1), stop={'maxit': N}, monitors=mon)
+        r3 = s2.restart(r2[-1], B.const(1), stop={'maxit': M}, monitors=mon)
         _same(B, 'solve(N)+restart(M)=solve(N+M)', r3[-1], s2, fref, sref, P_.n)
+        if N % k != 0:      # (when N is a multiple of k the restart records iteration N a second time: not asserted either way)
+            want = [it for it in range(0, N + M + 1) if it % k == 0]
+            for nm in ('avg', 'res'):
+                out = mon[nm].get('output')
+                got = list(out._it) if out is not None else None
+                B.ob('monitor-iterations-across-restart:' + nm, 'true', B.boolean(got == want), meta={'it': got, 'expected': want})
         B.ob('restart-iteration-count-is-cumulative', 'true', B.boolean(s2.totnit() == N + M), meta={'totnit': s2.totnit()})
         B.ob('returned-fields-carry-the-cumulative-count', 'true', B.boolean(r2[-1].it == N and r3[-1].it == N + M),
              meta={'it_after_solve': r2[-1].it, 'it_after_restart': r3[-1].it})
